@@ -297,6 +297,11 @@ func ruleR20(c *Ctx) *RuleResult {
 		for _, cl := range calls {
 			seen = append(seen, cl[0]+"."+cl[1])
 			if cl[0] != ro.field || cl[1] != ro.callee {
+				// the same inner lookup under its other name (`GetNode(k) != nil` for `_, found := Get(k)`): accepted when the
+				// inner container's two methods rest on the same library callees (both are the one `lookup`)
+				if cl[0] == ro.field && sameInnerCore(p, fn, cl[1], ro.callee) {
+					continue
+				}
 				// iterator-returning wrappers also allocate their own iterator struct: no call involved
 				okAll = false
 			}
@@ -333,6 +338,39 @@ func ruleR20(c *Ctx) *RuleResult {
 		}
 	}
 	return r
+}
+
+// sameInnerCore: fn calls a method named `got` of an inner container where the role table expects `want`; true when that
+// container has both, both are read-only lookups of one key (same parameter list up to results), and the set of library
+// functions each rests on (forwarders expanded) is the same non-empty set.
+func sameInnerCore(p *Prog, fn *ssa.Function, got, want string) bool {
+	for _, c := range allCalls(fn) {
+		cal := StaticCallee(c.Common())
+		if cal == nil || !p.IsLib(cal) || fnName(cal) != got {
+			continue
+		}
+		rn := recvNamed(cal)
+		if rn == nil {
+			continue
+		}
+		other := methodsOf(p, rn)[want]
+		if other == nil || other.Signature.Params().Len() != cal.Signature.Params().Len() {
+			return false
+		}
+		core := func(f *ssa.Function) string {
+			var ns []string
+			for _, x := range libCallsOf(p, f) {
+				ns = append(ns, x[1])
+			}
+			if len(ns) == 0 {
+				return ""
+			}
+			return strings.Join(dedup(ns), ",")
+		}
+		a, b := core(origin(cal)), core(other)
+		return (a != "" && a == b) || b == got
+	}
+	return false
 }
 
 func isVarargsArray(ia *ssa.IndexAddr) bool {
